@@ -486,14 +486,14 @@ def decField (c : Ctx) (addr : Nat) : R FieldM := do
   if ns > b.size then throw s!"field record {addr}: section count {ns} exceeds the file size"
   let mut fm : FieldM := { name := name }
   -- F17: the record at offset 0 of an empty segment may carry a stale section address
-  if c.numDocs = 0 ∧ addr = 0 then return fm
+  let follow := !(c.numDocs = 0 ∧ addr = 0)
   let mut seen : List Nat := []
   for j in [0:ns] do
     let typ ← be b (p + 10 * j) 2
     let sa ← be b (p + 10 * j + 2) 8
     if seen.contains typ then throw s!"field record {addr}: section type {typ} listed twice"
     seen := typ :: seen
-    if sa ≠ 0 then
+    if sa ≠ 0 ∧ follow then
       if typ = 0 then
         let (terms, dv) ← decInverted c sa
         fm := { fm with terms := terms, dv := dv }
